@@ -1,0 +1,6 @@
+//go:build !verif
+
+package otto
+
+// verifStep is a no-op unless built with the verif tag (see verif_step_on.go).
+func verifStep(*runtime) {}
